@@ -126,16 +126,18 @@ func (store *fileStore) Reset() error {
 	if err := store.Close(); err != nil {
 		return errors.Wrap(err, "close")
 	}
-	verifPoint("remove<", nil, store.bodyFname)
-	if err := removeFile(store.bodyFname); err != nil {
-		return err
-	}
-	verifPoint("remove>", nil, store.bodyFname)
+	// The index (header) file goes first: an interrupted Reset may leave message bytes that no index line
+	// refers to, but never index lines whose bytes are gone.
 	verifPoint("remove<", nil, store.headerFname)
 	if err := removeFile(store.headerFname); err != nil {
 		return err
 	}
 	verifPoint("remove>", nil, store.headerFname)
+	verifPoint("remove<", nil, store.bodyFname)
+	if err := removeFile(store.bodyFname); err != nil {
+		return err
+	}
+	verifPoint("remove>", nil, store.bodyFname)
 	verifPoint("remove<", nil, store.sessionFname)
 	if err := removeFile(store.sessionFname); err != nil {
 		return err
